@@ -10,6 +10,8 @@ from .. import estimators as E
 from .. import gens
 from ..harness import Sub, Violation
 
+QUICK_SCALE = 3  # quick budgets below are multiplied by this (kept at about half a minute on 8 processes)
+
 RULE = ("fitted Kauri trees (n up to 40, d up to 5, ties, data scaled by 1e-12..1e5), feature-name lists of unique generated strings (letters, "
         "digits, spaces, punctuation) of length >= d, between max-used-index+1 and d, too short, or None; stdout is parsed "
         "by a recursive-descent reader of the printed format into nested rules which are evaluated on query points "
